@@ -27,9 +27,17 @@
      exactly t |-> f (s1 t) (s2 t) on the common domain and is undefined
      before it.
    - C04_merge_starts_at_common_domain: the first stamp of the result is the
-     later of the two first stamps. *)
+     later of the two first stamps.
+   - C04_generated_merge: intersection() and _append() of offline/intersection.py as
+     RE-GENERATED from the Python text on every build (MergeGen.v, tools/py2coq_merge.py)
+     ARE the models isect / isect_g of C04_merge and of since / until: on the injected
+     sample lists the generated function never runs out of the fuel allotted to its
+     while loop, raises exactly where the model says 'Unexpected case', and returns
+     the model's samples (and last = []); the generated point-wise methods and split
+     are the functions the visitor model hands to the merge. *)
 From Coq Require Import List ZArith QArith Qround Lia.
 From RV Require Import Val Syntax Rho Dense DenseSem DenseMerge DenseMergeCorrect DenseEval DenseEvalCorrect DenseWin DenseVisitor DenseConst DenseReal DenseEvalMain ExtZ.
+From RV Require Import DenseMergeG PySem PyDense PyMerge MergeGen MergeGenCorrect.
 Import ListNotations.
 Local Open Scope Z_scope.
 
@@ -196,3 +204,28 @@ Example C04_generated_visitor_nonvacuous :
   let p : @formula ExtZVal := UntilT 1 3 (OnceT 1 2 (Pred CGeq (Var 0) (Const (Fin 2)))) (AlwT 0 2 (SinceT 0 3 (Var 1) (Pred CLt (Var 1) (Var 0)))) in
   gen_deval ExtZArith p W = Some [(0, NegInf); (1, Fin 1); (3, Fin 0); (5, Fin (-1)); (10, Fin 0)].
 Proof. vm_compute. reflexivity. Qed.
+(* ---------------- intersection() as GENERATED from the Python text (MergeGen.v) ---------------- *)
+Theorem C04_generated_merge :
+  forall (VS : Val) (AR : Arith VS),
+  (* _append *)
+  (forall (B : Type) (beq : B -> B -> bool) out item, gen_off_append tz B beq out item = Ok (append_g B beq out item)) /\
+  (* intersection(), any result type: no NoFuel, Raise exactly when the model says 'Unexpected case', same samples, last = [] *)
+  (forall (B : Type) (beq : B -> B -> bool) (f : V -> V -> B) (s1 s2 : dsig),
+     rmap (fun r => (finite_g B (fst (fst (fst r))), snd (fst (fst r)))) (gen_off_intersection tz tlt teq TInf B beq f (map inj s1) (map inj s2))
+     = rlift (option_map (fun o => (o, None)) (isect_g B beq f s1 s2))) /\
+  (* the point-wise operators: the model of C04_merge *)
+  (forall (f : V -> V -> V) (s1 s2 : dsig),
+     rmap (fun r => (finite (fst (fst (fst r))), snd (fst (fst r)))) (gen_off_intersection tz tlt teq TInf V veq f (map inj s1) (map inj s2))
+     = rlift (option_map (fun o => (o, None)) (isect f s1 s2))) /\
+  (* since / until *)
+  (forall s1 s2 : dsig,
+     rmap (fun r => (finite_g (V * V) (fst (fst (fst r))), snd (fst (fst r))))
+          (gen_off_intersection tz tlt teq TInf (V * V) peq gen_off_m_split (map inj s1) (map inj s2))
+     = rlift (option_map (fun o => (o, None)) (split_isect s1 s2))) /\
+  (* the functions handed to intersection(): those of DenseVisitor.deval_pk *)
+  gen_off_m_conjunction AR = vmin /\ gen_off_m_disjunction AR = vmax /\ gen_off_m_implication AR = (fun l r => vmax (neg l) r) /\
+  gen_off_m_iff AR = (fun l r => neg (a1 AR Abs (a2 AR Sub l r))) /\ gen_off_m_xor AR = (fun l r => a1 AR Abs (a2 AR Sub l r)) /\
+  gen_off_m_addition AR = a2 AR Add /\ gen_off_m_subtraction AR = a2 AR Sub /\ gen_off_m_multiplication AR = a2 AR Mul /\
+  gen_off_m_division AR = a2 AR Div /\ @gen_off_m_split VS = (fun a b => (a, b)).
+Proof. exact @merge_gen_off_refines. Qed.
+Print Assumptions C04_generated_merge.
